@@ -63,9 +63,20 @@ where
 
     fn call(&mut self, req: http::request::Parts) -> Self::Future {
         let config = self.config.clone();
-        let Some(host) = req.uri.host().map(String::from) else {
+        // `Uri::host` keeps the brackets of an IPv6 literal, the server name must not have them.
+        let Some(host) = req.uri.host().map(|host| {
+            host.trim_start_matches('[')
+                .trim_end_matches(']')
+                .to_owned()
+        }) else {
             return future::TlsConnectionFuture::error(TlsConnectionError::NoDomain);
         };
+
+        // Not every valid URI host is a valid TLS server name: report that as an error
+        // instead of panicking when the stream is created.
+        if rustls::pki_types::ServerName::try_from(host.as_str()).is_err() {
+            return future::TlsConnectionFuture::error(TlsConnectionError::InvalidDomain(host));
+        }
 
         let future = self.transport.connect(req);
 
